@@ -36,31 +36,24 @@ theorem one_record_per_span (sorted : Bool) (t : Traces) (recs : List SpanRecord
 theorem plain_mode_total (t : Traces) : ∃ recs, tracesToStef false t = some recs := by
   simp [tracesToStef]
 
-/-- Content, full statement: every record carries its span's content. FALSE as the code is written
-    (otlpval2tef.go never increments the index of a nested map): witness = one span with the
-    attribute `m = {"a": 1, "b": 2}`. -/
-def nestedMapWitness : Traces :=
-  let sp : Span :=
-    { traceID := List.replicate 16 0, spanID := List.replicate 8 0, parent := List.replicate 8 0,
-      attrs := .cons [109] (.map (.cons [97] (.int 1) (.cons [98] (.int 2) .nil))) .nil }
-  { rss := [{ scopes := [{ spans := [sp] }] }] }
-
-theorem span_content_false :
-    ¬ ∀ t : Traces, tracesToStef false t = some ((flattenSpans t).map (expected false)) := by
-  intro h
-  have := h nestedMapWitness
-  revert this
-  decide
-
-/-- Content, plain mode, for every clean batch (attribute maps with distinct keys, nested maps of
-    at most one entry, no -0.0 double; ids of 16 / 8 bytes): the records are exactly the spans in
-    document order, each with its resource, scope, ids, name, kind, times, trace state, flags,
-    attributes, dropped-attributes counts, status, events and links. -/
-theorem span_content_partial (t : Traces) (hc : t.clean = true) :
+/-- Content, plain mode, FULL statement (holds for every batch since repo commit 571960a, which
+    fixed the nested-map index of otlpval2tef.go; no side condition): the records are exactly the
+    spans in document order, each with its resource, scope, ids (as `idText`), name, kind, times,
+    trace state, flags, attributes (including nested arrays and maps of any size),
+    dropped-attributes counts, status, events and links. -/
+theorem span_content (t : Traces) :
     tracesToStef false t = some ((flattenSpans t).map (expected false)) := by
   simp only [tracesToStef]
   simp only [Bool.false_eq_true, if_false]
-  rw [tracesToStef_records false t hc]
+  rw [tracesToStef_records false t]
+  rfl
+
+/-- Content, sorting mode: whenever it returns, the records are exactly the spans of the sorted and
+    merged batch (`sortTraces`), with span attributes in key order. -/
+theorem span_content_sorted (t t' : Traces) (h : sortTraces t = some t') :
+    tracesToStef true t = some ((flattenSpans t').map (expected true)) := by
+  simp only [tracesToStef, if_true, h]
+  rw [tracesToStef_records true t']
   rfl
 
 /-- The record has no place for Span.DroppedEventsCount / DroppedLinksCount: batches that differ
@@ -95,11 +88,11 @@ def panicWitness : Traces :=
 
 theorem sorted_mode_panics : tracesToStef true panicWitness = none := by decide
 
-/-- Sorting mode, for every clean batch in which the sorting mode only merges resources and scopes
+/-- Sorting mode, for every batch in which the sorting mode only merges resources and scopes
     that a record cannot tell apart (`ResMergeOK`, `ScopeMergeOK`: equal under the comparison implies
     equal url/attributes/dropped count): whenever the converter returns, the records are a
     permutation of the records of the spans (span attributes in key order). -/
-theorem sorted_same_multiset (t : Traces) (recs : List SpanRecord) (hc : t.clean = true)
+theorem sorted_same_multiset (t : Traces) (recs : List SpanRecord)
     (hr : ResMergeOK t) (hs : ScopeMergeOK t) (h : tracesToStef true t = some recs) :
     recs.Perm ((flattenSpans t).map (expected true)) := by
   simp only [tracesToStef, if_true] at h
@@ -107,7 +100,7 @@ theorem sorted_same_multiset (t : Traces) (recs : List SpanRecord) (hc : t.clean
   · simp at h
   · rename_i t' ht
     simp at h; subst h
-    rw [tracesToStef_records true t' (sortTraces_clean t t' hc ht)]
+    rw [tracesToStef_records true t']
     have p := sortTraces_triples t t' hr hs ht
     show ((flattenSpans t').map fun x => expectedRecord x.1 x.2.1 x.2.2 true).Perm
       ((flattenSpans t).map fun x => expectedRecord x.1 x.2.1 x.2.2 true)
@@ -116,15 +109,15 @@ theorem sorted_same_multiset (t : Traces) (recs : List SpanRecord) (hc : t.clean
 
 /-! ### non-vacuity -/
 
-/-- a clean batch with a repeated resource that the sorting mode merges, spans with differing
-    numbers of events and links, a nested one-entry map and a nested array -/
+/-- a batch with a repeated resource that the sorting mode merges, spans with differing numbers of
+    events and links, a nested map of three entries (one of them a -0.0 double) and a nested array -/
 def sample : Traces :=
   let res : ResourceSpans := { url := [117], dropped := 3, attrs := .cons [107] (.str [118]) .nil }
   let id16 := List.replicate 16 7
   let id8 := List.replicate 8 9
   let sp1 : Span :=
     { traceID := id16, spanID := id8, parent := List.replicate 8 0, name := [97],
-      attrs := .cons [122] (.map (.cons [120] (.dbl 0) .nil)) (.cons [97] (.slice (.cons (.int 1) (.cons .empty .nil))) .nil),
+      attrs := .cons [122] (.map (.cons [120] (.dbl negZero) (.cons [121] (.int 2) (.cons [119] .empty .nil)))) (.cons [97] (.slice (.cons (.int 1) (.cons .empty .nil))) .nil),
       events := [{ name := [101] }, { name := [102], attrs := .cons [107] (.bool true) .nil }],
       links := [{ traceID := id16, spanID := id8 }] }
   let sp2 : Span := { traceID := id16, spanID := id8, parent := id8, name := [98], events := [{ name := [103] }] }
@@ -134,11 +127,9 @@ def sample : Traces :=
             { url := [118], scopes := [{ spans := [sp3] }] },
             { res with scopes := [{ name := [115], spans := [sp4] }] }] }
 
-example : sample.clean = true := by decide
-
 example : (flattenSpans sample).length = 4 ∧
     tracesToStef false sample = some ((flattenSpans sample).map (expected false)) :=
-  ⟨by decide, span_content_partial sample (by decide)⟩
+  ⟨by decide, span_content sample⟩
 
 /-- the hypotheses of `sorted_same_multiset` hold for `sample`, the sorting mode returns, and it does
     reorder and merge (its output differs from the plain mode's) -/
